@@ -201,3 +201,78 @@ func (c *Ctx) polar(t *Term, pos bool) *Term {
 	}
 	return c.Not(t)
 }
+
+// instantiate: ground instances of the universally quantified hypotheses among fs at the index
+// terms that occur in fs (a one-round, engine-side E-matching that makes the common
+// "invariant at the current index" step independent of the solvers' trigger heuristics).
+func (c *Ctx) instantiate(fs []*Term) []*Term {
+	// candidate ground index terms, per sort
+	cands := map[*Sort][]*Term{}
+	seenC := map[int]bool{}
+	seen := map[int]bool{}
+	var collect func(t *Term)
+	collect = func(t *Term) {
+		if seen[t.id] {
+			return
+		}
+		seen[t.id] = true
+		if t.op == "select" {
+			var add func(idx *Term, depth int)
+			add = func(idx *Term, depth int) {
+				if idx.hasBound || seenC[idx.id] || !(idx.sort == IntSort || idx.sort.K == SBV) || idx.IsNum() {
+					return
+				}
+				seenC[idx.id] = true
+				cands[idx.sort] = append(cands[idx.sort], idx)
+				// off+i: the quantified index is usually i, not the absolute element position
+				if (idx.op == "+" || idx.op == "bvadd") && depth < 2 {
+					for _, a := range idx.args {
+						add(a, depth+1)
+					}
+				}
+			}
+			add(t.args[1], 0)
+		}
+		for _, a := range t.args {
+			collect(a)
+		}
+	}
+	var foralls []*Term
+	var findForalls func(t *Term, pos bool)
+	findForalls = func(t *Term, pos bool) {
+		switch t.op {
+		case "and":
+			if pos {
+				for _, a := range t.args {
+					findForalls(a, pos)
+				}
+			}
+		case "forall":
+			if pos && !t.hasBound && len(t.bvars) == 1 {
+				foralls = append(foralls, t)
+			}
+		}
+	}
+	for _, f := range fs {
+		collect(f)
+		findForalls(f, true)
+	}
+	var out []*Term
+	n := 0
+	for _, q := range foralls {
+		bv := q.bvars[0]
+		cs := cands[bv.sort]
+		// also try index+1 / index-1 neighbours that already occur as terms
+		for i, t := range cs {
+			if i >= 24 || n >= 300 {
+				break
+			}
+			inst := c.Subst(q.args[0], bv, t)
+			if !inst.IsTrue() {
+				out = append(out, inst)
+				n++
+			}
+		}
+	}
+	return out
+}
